@@ -2034,10 +2034,12 @@ class zip_latest(Stream):
         if not self.missing:
             L = []
             while self.lossless_buffer:
-                self.last[0], self.metadata[0] = self.lossless_buffer.popleft()
+                self.last[0], held = self.lossless_buffer.popleft()
+                self.metadata[0] = held
                 md = [m for ml in self.metadata for m in ml]
                 L.extend(self._emit(tuple(self.last), md))
-                self._release_refs(self.metadata[0])
+                # (the emission may have fed back into this node and replaced the slot)
+                self._release_refs(held)
             return L
 
 
